@@ -34,11 +34,14 @@ pub struct StepCase {
     pub letters: Vec<Vec<f64>>,
     /// indices into `letters`
     pub script: Vec<usize>,
+    /// when set, the step is the space's own distance between these two letters (exact ties
+    /// between "within the step" and "beyond the step")
+    pub step_from: Option<(usize, usize)>,
 }
 impl StepCase {
     pub fn to_json(&self) -> Value {
         json!({"kind":"steps","problem":self.problem.to_json(),"params":self.params.to_json(),
-               "letters":self.letters.iter().map(|l| fjs(l)).collect::<Vec<_>>(),"script":self.script})
+               "letters":self.letters.iter().map(|l| fjs(l)).collect::<Vec<_>>(),"script":self.script,"step_from":self.step_from.map(|(a,b)| json!([a,b]))})
     }
     pub fn from_json(v: &Value) -> StepCase {
         StepCase {
@@ -46,6 +49,7 @@ impl StepCase {
             params: PParams::from_json(&v["params"]),
             letters: v["letters"].as_array().unwrap().iter().map(crate::util::parse_fs).collect(),
             script: v["script"].as_array().unwrap().iter().map(|x| x.as_u64().unwrap() as usize).collect(),
+            step_from: v["step_from"].as_array().map(|a| (a[0].as_u64().unwrap() as usize, a[1].as_u64().unwrap() as usize)),
         }
     }
 }
@@ -553,10 +557,30 @@ pub fn make_case(r: &mut Sm, idx: usize, prop: StepProp, depth_exhaustive: Optio
             (0..len).map(|_| r.below(letters.len())).collect()
         }
     };
-    StepCase { problem, params, letters, script }
+    let step_from = if letters.len() >= 3 && r.bool(0.25) {
+        let a = r.below(letters.len());
+        let b = r.below(letters.len());
+        if letters[a] != letters[b] { Some((a, b)) } else { None }
+    } else {
+        None
+    };
+    StepCase { problem, params, letters, script, step_from }
 }
 
 pub fn run_case(prop: StepProp, ctx: &Ctx, b: &mut Batch, case: &StepCase) {
+    let mut owned = case.clone();
+    with_kit!(case.problem.spec, K, kit => {
+        if let (Some((ia, ib)), Ok(sp)) = (case.step_from, kit.build()) {
+            let d = sp.distance(&kit.unflat(&case.letters[ia]), &kit.unflat(&case.letters[ib]));
+            if d > 0.0 && d.is_finite() {
+                let k = owned.params.search_radius / owned.params.max_distance;
+                owned.params.max_distance = d;
+                owned.params.search_radius = d * k;
+                b.count("cases_with_exact_tie_step", 1);
+            }
+        }
+    });
+    let case = &owned;
     with_kit!(case.problem.spec, K, kit => {
         match run_trace::<K>(&kit, case) {
             Ok((d, tr)) => judge_trace::<K>(prop, ctx, b, &kit, case, &d, &tr),
